@@ -54,7 +54,7 @@ def _one_case(obs, rng, conv, kw, spec, mode, work):
     if model.skip_cells:
         obs.cls('dataset-with-degenerate-derived-cells-skipped')
         return
-    history = 'via-file' if rng.random() < 0.4 else 'direct'
+    history = ['direct', 'direct', 'direct', 'via-file', 'via-file', 'mask-reused'][int(rng.integers(6))]
     spec.update(model=model.describe(), source=source, history=history)
 
     counter = [0]
@@ -101,12 +101,34 @@ def _one_case(obs, rng, conv, kw, spec, mode, work):
         selection = oracle.expected_selection(model, s0, b, edge_rows)
         cdir = tempfile.mkdtemp(prefix='w', dir=work)
         target_model = model
+        src_ds = ds
         with quiet_warnings():
             if history == 'direct':
                 out = obs.call('clip', ems.clip, g, cdir, buffer=b, mech=classify_exception)
+            elif history == 'mask-reused':
+                # one mask object, applied first to this dataset and then to a twin with the same geometry: applying a mask
+                # must not use it up
+                mask = obs.call('make_clip_mask', ems.make_clip_mask, g, buffer=b)
+                if isinstance(mask, Failed):
+                    continue
+                first = obs.call('apply_clip_mask (first use of the mask)', ems.apply_clip_mask, mask, cdir, mech=classify_exception)
+                if isinstance(first, Failed) or isinstance(obs.call('clipped.load', first.load), Failed):
+                    continue
+                if mode == 'values':
+                    check_values(obs, model, first, selection, source, ds)
+                first.close()
+                target_model = oracle.twin_with_new_values(model)
+                ds_b = materialise(target_model, 'b')
+                src_ds = ds_b
+                ems_b = obs.call('dataset_b.ems', lambda: ds_b.ems)
+                if isinstance(ems_b, Failed):
+                    continue
+                cdir2 = tempfile.mkdtemp(prefix='w', dir=work)
+                out = obs.call('apply_clip_mask (second use of the same mask)', ems_b.apply_clip_mask, mask, cdir2, mech=classify_exception)
             else:
                 target_model = oracle.twin_with_new_values(model)
                 ds_b = materialise(target_model, 'b')
+                src_ds = ds_b
                 mask = obs.call('make_clip_mask', ems.make_clip_mask, g, buffer=b)
                 if isinstance(mask, Failed):
                     continue
@@ -128,7 +150,7 @@ def _one_case(obs, rng, conv, kw, spec, mode, work):
         obs.sig(conv, model.kinds['face'].shape, model.describe()['holes'], gcls, hash(g.wkt), b, history, source,
                 tuple(sorted((n, v.dims, v.dtype) for n, v in model.variables.items())))
         if mode == 'values':
-            check_values(obs, target_model, out, selection, source)
+            check_values(obs, target_model, out, selection, source, src_ds)
         else:
             check_validity(obs, target_model, out, selection, source, work, rng)
         if len(obs.samples) < 3 and len(selection['face']) < model.kinds['face'].size:
@@ -176,7 +198,24 @@ def expected_variable(model, var, selection):
     return arr[index], maskable
 
 
-def check_values(obs, model, out, selection, source):
+IGNORED_ATTRS = ('_FillValue', 'missing_value')      # decoded by xarray: they legitimately move to the encoding
+
+
+def check_values(obs, model, out, selection, source, src_ds=None):
+    # attributes of every variable of the input (data, coordinate and geometry variables alike) pass through
+    if src_ds is not None:
+        for name, variable in src_ds.variables.items():
+            if name not in out.variables:
+                continue
+            for k, v in variable.attrs.items():
+                if k in IGNORED_ATTRS:
+                    continue
+                got = out[name].attrs.get(k, Ellipsis)
+                same = got is not Ellipsis and (numpy.array_equal(got, v) if isinstance(v, numpy.ndarray) or isinstance(got, numpy.ndarray)
+                                                else got == v)
+                obs.expect(bool(same), 'attributes of every variable (coordinates and geometry included) pass through unchanged',
+                           lambda: {'variable': name, 'attr': k, 'got': None if got is Ellipsis else got, 'want': v,
+                                    'is_coordinate': name in src_ds.coords}, mech='attrs-changed')
     for name, var in model.variables.items():
         if not obs.expect(name in out.variables, 'every variable is still present after clipping', lambda: {'var': name}, mech='variable-lost'):
             continue
